@@ -14,6 +14,20 @@ CHECKS = {
          "DESIGN.md §4 C03"),
 }
 
+PROGFAM_NOTE = "Trusts the reference interpreter (interp.rs), the harness's own bit encoder/decoder and printer location rules (DESIGN.md Appendix A; token positions are the real scanner's). Small scope: programs beyond the stated node/statement/site bounds are outside the claim."
+CHECKS["C01"] = ("exploration",
+  "bounded exhaustive enumeration of programs (families E, S, P) x inputs x 4 configurations on the real compiler+evaluator vs. a reference interpreter",
+  "Every program of three small grammars up to a size bound (expression nests with k operator nodes; sequences of n statement templates over 7 mutable variables; sequences of n wrapped failing sites) is compiled by the real compiler in all four configurations (SSA/register x dedup on/off) and evaluated by the real evaluator on every input of its input set (all 2^16 operand pairs for the smallest nests, boundary products otherwise); the decoded result must equal the reference interpreter's value with the panic flag clear.",
+  PROGFAM_NOTE, "DESIGN.md §4 C01")
+CHECKS["C02"] = ("exploration",
+  "bounded exhaustive enumeration of arrangements of failing operations (family P: site x wrapper sequences incl. repeats and constant-foldable sites; plus families S, E) x boundary inputs vs. reference interpreter (panic iff, reason, location of first failure)",
+  "For every enumerated program and input the circuit's panic flag, reason and decoded source location are compared with the first failing operation of the reference interpreter; untaken branches/arms/short-circuited operands/non-joined iterations must stay silent. The input products switch every site's failure condition on and off independently.",
+  PROGFAM_NOTE + " Where an out-of-range index and a failing assigned value coincide in one assignment, either panic is accepted; MIN % -1 accepts both outcomes.", "DESIGN.md §4 C02")
+CHECKS["C14"] = ("exploration",
+  "bounded exhaustive enumeration of mutation-heavy statement sequences (family S) x boundary inputs x 4 configurations vs. reference interpreter, observing all variables",
+  "Every sequence of up to n statement templates (assignment / op-assignment through nested accessors with constant and input-dependent indices, aggregate copies followed by mutation of either side, shadowing, calls mutating their by-value parameter, loops, branches, arms, for-join) is compiled and evaluated; the program returns the tuple of all variables, so any aliasing, wrongly merged branch or lost update changes the output.",
+  PROGFAM_NOTE, "DESIGN.md §4 C14")
+
 NOT_YET = {
 }
 
